@@ -14,7 +14,7 @@ import (
 
 func init() {
 	register(&Rule{
-		ID: "C14.cuts-at-cluster-boundaries", Prop: "C14", Floor: 6, Controls: 0,
+		ID: "C14.cuts-at-cluster-boundaries", Prop: "C14", Floor: 6, Controls: 1,
 		Doc: "in the string functions' files (stdlib/string.go, stdlib/format.go) every slice of a string or byte buffer with a computed bound cuts at a position that is a sum of advances returned by textseg.ScanGraphemeClusters (a counter that starts at 0 and only ever grows by such an advance), or at the position of a delimiter found by strings.Index*: a position counted in bytes, runes (utf8.*) or by i++ splits a multi-code-point grapheme cluster — this decides where the functions cut, not what they count",
 		Run: runCutsAtClusterBoundaries,
 	})
@@ -26,7 +26,7 @@ func runCutsAtClusterBoundaries(rr *RuleRun) {
 	info := c.Info(pkg)
 	files := map[string]bool{"string.go": true, "format.go": true}
 	eachFuncBody(c, []string{pkg}, func(_ string, fd *ast.FuncDecl, body *ast.BlockStmt) {
-		if !files[filepath.Base(c.FileOf(body.Pos()))] {
+		if !files[filepath.Base(c.FileOf(body.Pos()))] && !c.IsControl(body.Pos()) {
 			return
 		}
 		okExpr := clusterAligned(c, info, fd, body, 0)
@@ -221,4 +221,84 @@ func returnsClusterAligned(c *Ctx, info *types.Info, f *types.Func, depth int) b
 		return true
 	})
 	return n > 0 && good
+}
+
+// ---------------------------------------------------------------------------
+// C11.first-iteration-skips-only-comparison
+
+func init() {
+	register(&Rule{
+		ID: "C11.first-iteration-skips-only-comparison", Prop: "C11", Also: []string{"C12"}, Floor: 0, Controls: 1,
+		Doc: "in a loop over the arguments whose body contains `if i == 0 { first = …; continue }`, every statement after that continue compares the current element with what the first iteration recorded (it mentions a variable assigned in that block): a statement there that processes the element on its own (sets a flag, collects attributes) is skipped for the first argument only, so the result depends on which position an argument is in",
+		Run: runFirstIterationSkips,
+	})
+}
+
+func runFirstIterationSkips(rr *RuleRun) {
+	c := rr.Ctx
+	eachFuncBody(c, []string{"cty/function/stdlib", "cty/convert", "cty", "cty/function"}, func(pkg string, fd *ast.FuncDecl, body *ast.BlockStmt) {
+		info := c.Info(pkg)
+		inspectNoLit(body, func(n ast.Node) bool {
+			var lb *ast.BlockStmt
+			var idx types.Object
+			switch x := n.(type) {
+			case *ast.RangeStmt:
+				if x.Key != nil {
+					idx = objOf(info, x.Key)
+				}
+				lb = x.Body
+			case *ast.ForStmt:
+				if as, ok := x.Init.(*ast.AssignStmt); ok && len(as.Lhs) == 1 {
+					idx = objOf(info, as.Lhs[0])
+				}
+				lb = x.Body
+			}
+			if lb == nil || idx == nil {
+				return true
+			}
+			for i, st := range lb.List {
+				is, ok := st.(*ast.IfStmt)
+				if !ok || is.Else != nil || is.Init != nil || len(is.Body.List) == 0 {
+					continue
+				}
+				be, ok := ast.Unparen(is.Cond).(*ast.BinaryExpr)
+				if !ok || be.Op != token.EQL || objOf(info, be.X) != idx {
+					continue
+				}
+				if v, ok := constInt(info, be.Y); !ok || v != 0 {
+					continue
+				}
+				if br, ok := is.Body.List[len(is.Body.List)-1].(*ast.BranchStmt); !ok || br.Tok != token.CONTINUE {
+					continue
+				}
+				recorded := map[types.Object]bool{}
+				for _, s := range is.Body.List {
+					if as, ok := s.(*ast.AssignStmt); ok {
+						for _, l := range as.Lhs {
+							if o := objOf(info, l); o != nil {
+								recorded[o] = true
+							}
+						}
+					}
+				}
+				key := fmt.Sprintf("%s.%s/if %s == 0 {…continue}", pkg, declName(fd), idx.Name())
+				if c.IsControl(is.Pos()) {
+					key = "control/" + key
+				}
+				var bad ast.Stmt
+				for _, later := range lb.List[i+1:] {
+					if !mentionsAny(info, later, recorded) {
+						bad = later
+						break
+					}
+				}
+				if bad != nil {
+					rr.Violation(key, bad.Pos(), fmt.Sprintf("the statement at %s runs for every element except the first (it follows `if %s == 0 { …; continue }`) and does not compare with what the first iteration recorded: the first argument is not treated like the rest", c.PosStr(bad.Pos()), idx.Name()))
+				} else {
+					rr.OK(key, is.Pos(), fmt.Sprintf("%d statement(s) after the continue, each comparing with what the first iteration recorded", len(lb.List[i+1:])))
+				}
+			}
+			return true
+		})
+	})
 }
